@@ -108,7 +108,11 @@ class FakeSnowflakeCursor:
 
         describe = f"DESCRIBE {command}"
         self.execute(describe, *args, **kwargs)
-        return describe_as_result_metadata(self.fetchall())
+        rows = self.fetchall()
+        if self._use_dict_result:
+            # describe_as_result_metadata expects rows as tuples
+            rows = [tuple(cast(dict, r).values()) for r in rows]
+        return describe_as_result_metadata(rows)
 
     @property
     def description(self) -> list[ResultMetadata]:
